@@ -154,9 +154,24 @@ def run_case(spec, ctx):
             if kind == "rigid":
                 body = RigidBody(mass, Theta, q0=q0, u0=u0)
             else:
-                c = int(rng.integers(3))
+                c = int(rng.integers(4))
                 dens = float(loguniform(rng, 1e-1, 1e1))
-                if c == 0:
+                if c == 3:
+                    # general entry point: a trimesh object with density, mesh basis rotated against the body basis, origin offset, scale
+                    import trimesh
+                    ext = rng.uniform(0.2, 2, size=3)
+                    A_BM = quat_to_mat(rng.normal(size=4)) if rng.random() < 0.8 else np.eye(3)
+                    scale = float(rng.uniform(0.5, 2)) if rng.random() < 0.5 else 1
+                    body = disc.Meshed(RigidBody)(trimesh.creation.box(extents=ext), density=dens, B_r_CP=rng.normal(size=3) * 0.3, A_BM=A_BM, scale=scale, q0=q0, u0=u0)
+                    label = "Meshed(RigidBody)"
+                    e_ = ext * scale
+                    m_ref = dens * float(np.prod(e_))
+                    Th_ref = A_BM @ np.diag(m_ref / 12.0 * np.array([e_[1] ** 2 + e_[2] ** 2, e_[0] ** 2 + e_[2] ** 2, e_[0] ** 2 + e_[1] ** 2])) @ A_BM.T
+                    ctx.mon("EQ:mass_matrix")
+                    if abs(body.mass - m_ref) > 1e-9 * m_ref or np.abs(np.asarray(body.B_Theta_C) - Th_ref).max() > 1e-9 * np.abs(Th_ref).max():
+                        ctx.violation("Meshed(RigidBody).M", "mass / inertia computed from a box mesh with density differ from the closed form in the body basis",
+                                      {"extents": e_, "density": dens, "A_BM": A_BM, "mass": body.mass, "mass_ref": m_ref, "B_Theta_C": np.asarray(body.B_Theta_C), "reference": Th_ref})
+                elif c == 0:
                     body = disc.Box(RigidBody)(dimensions=rng.uniform(0.2, 2, size=3), density=dens, q0=q0, u0=u0)
                     label = "Box(RigidBody)"
                 elif c == 1:
